@@ -18,7 +18,7 @@ use serde_json::json;
 
 pub struct C29;
 
-const BLOCK_COMMENTS: [&str; 6] = ["/**/", "/* c */", "/* a*b */", "/* a/b */", "/* // */", "/* \" */"];
+const BLOCK_COMMENTS: [&str; 9] = ["/**/", "/* c */", "/* a*b */", "/* a/b */", "/* // */", "/* \" */", "/***/", "/** c **/", "/* c ***/"];
 const LINE_COMMENTS: [&str; 3] = ["// c", "// */", "// \""];
 
 #[derive(Clone, Debug)]
